@@ -23,15 +23,19 @@ MODELS = {
          "delay": {"type": "fixed", "delay": "tau"}},
         {"reactants": ["Y"], "products": ["X"], "prop": {"type": "massaction", "k": "k2"}}],
         "params": {"k": 1.0, "k2": 0.5, "tau": 0.3}, "ic": {"X": 5, "Y": 1}},
-    "rules": {"species": ["X", "Y", "S", "R", "Q", "D"], "reactions": [
+    "rules": {"species": ["X", "Y", "S", "R", "Q", "D", "Xc"], "reactions": [
         {"reactants": ["X"], "products": ["Y"], "prop": {"type": "massaction", "k": "k"}},
         {"reactants": ["Y"], "products": ["X"], "prop": {"type": "massaction", "k": "k2"}}],
-        "params": {"k": 1.0, "k2": 0.5}, "ic": {"X": 5, "Y": 1, "S": 0, "R": 0, "Q": 0, "D": 0},
-        "first": {"X": 5.0, "Y": 1.0, "S": 6.0, "R": 5.0, "Q": 8.0, "D": 11.0},
+        "params": {"k": 1.0, "k2": 0.5, "iv": 1.0}, "ic": {"X": 5, "Y": 1, "S": 0, "R": 0, "Q": 0, "D": 0, "Xc": 0},
+        # Xc = X * iv with the parameter iv = 1/volume: 5 / V where a volume is in play (stochastic or delay mode with a volume
+        # given as number 2.5 or object 1.5), 5 otherwise
+        "first": {"X": 5.0, "Y": 1.0, "S": 6.0, "R": 5.0, "Q": 8.0, "D": 11.0, "Xc": ("per_volume", 5.0)},
         # a repeated rule, a rule that reads the time, a rule that fires at the start only, and an assignment rule of frequency dt
         "rules": [{"type": "additive", "attrs": {"equation": "S = X + Y"}}, {"type": "assignment", "attrs": {"equation": "R = 5 + 2*t"}},
                   {"type": "assignment", "attrs": {"equation": "Q = 7 + k"}, "frequency": "start"},
-                  {"type": "assignment", "attrs": {"equation": "D = 2*X + 1"}, "frequency": "dt"}]},
+                  {"type": "assignment", "attrs": {"equation": "D = 2*X + 1"}, "frequency": "dt"},
+                  {"type": "assignment", "attrs": {"equation": "iv = 1/volume"}},
+                  {"type": "assignment", "attrs": {"equation": "Xc = X*iv"}}]},
     "both": {"species": ["S", "X", "Y"], "reactions": [
         {"reactants": ["X"], "products": [], "dreactants": [], "dproducts": ["Y"], "prop": {"type": "massaction", "k": "k"},
          "delay": {"type": "gamma", "k": "gk", "theta": "gt"}},
@@ -141,11 +145,18 @@ def dividing_volume(ctx):
                         ctx.count("dividing_volume_cases")
 
 
-def expected_first_row(M, T, spec=None):
+def volume_in_play(opts):
+    if opts is None or not (opts.get("stochastic") or opts.get("delay")):
+        return 1.0
+    return {"number": 2.5, "object": 1.5}.get(opts.get("volume"), 1.0)
+
+
+def expected_first_row(M, T, spec=None, opts=None):
     """the initial condition with assignment rules applied: written out by hand for the models with rules (independent of the
     implementation), the plain initial condition otherwise."""
     if spec is not None and "first" in spec:
-        return [float(spec["first"][s]) for s in M.get_species_list()]
+        val = lambda v: (v[1] / volume_in_play(opts)) if isinstance(v, tuple) else float(v)
+        return [val(spec["first"][s]) for s in M.get_species_list()]
     if spec is not None and not spec.get("rules"):
         return [float(spec["ic"].get(s, 0)) for s in M.get_species_list()]
     from bioscrape.simulator import ModelCSimInterface
@@ -172,7 +183,7 @@ def run(ctx):
         ctx.begin_case({"model": mname, "grid": gname, "options": opts})
         M = build_model(spec)
         sl = M.get_species_list()
-        first = expected_first_row(M, T, spec)
+        first = expected_first_row(M, T, spec, opts)
         M = build_model(spec)
         real = call_real(M, opts, T, strided=(len(reals) % 2 == 1)) if (opts["model"] or opts["interface"]) else call_real_neither(opts, T)
         if opts["model"] and opts["interface"]:
@@ -258,6 +269,7 @@ def session_pass(ctx):
             if real["rows"] != len(T) or real["time"] is None or not np.array_equal(np.array(real["time"], dtype=float), T):
                 ctx.violation("entry/session/shape", "after earlier calls on the same model the result has a different shape or time axis", rep)
                 return
+            first = expected_first_row(M, T, spec, opts)
             if not np.allclose(real["first"], first, rtol=1e-7, atol=1e-9):
                 ctx.violation("entry/session/first-row", "after earlier calls on the same model the first row %s is no longer the initial condition "
                               "with rules applied %s" % (real["first"], first), rep)
